@@ -23,45 +23,68 @@ var primeDocs = [][]byte{
 	[]byte(`[[[[`),
 }
 
+var primeTraversals = [][]byte{
+	gen.NestSpec{Depth: 12000, Pattern: "a", Close: 12000, Bottom: "1"}.Build(),
+	gen.NestSpec{Depth: 12000, Pattern: "oa", Close: 12000, Bottom: "1"}.Build(),
+	[]byte(`[1,{"a":[2,{"b":[3]}]}]`),
+}
+
 func primedBuffer() *rjson.Buffer {
 	b := &rjson.Buffer{}
 	for _, d := range primeDocs {
 		// a panic while priming is not reported here: the cases themselves will show it
 		_ = core.Catch(func() error { rjson.Valid(d, b); return nil })
 	}
+	// "previously used" includes use by the traversal functions, which have no depth limit of
+	// their own and can therefore grow the shared stack further than the skip functions would
+	for _, d := range primeTraversals {
+		_ = core.Catch(func() error {
+			rjson.HandleArrayValues(d, &nopHandler{}, b)
+			rjson.HandleObjectValues(d, &nopHandler{}, b)
+			rjson.SkipValueFast(d, b)
+			return nil
+		})
+	}
 	return b
 }
 
-// history keeps the recent inputs a long-lived buffer was used on, so that a
-// history-dependent failure can be written down as a concrete case.
+// history is the complete list of inputs a long-lived buffer has been used on since it
+// was last replaced by a fresh one (an "epoch" of at most 256 inputs / 2 MiB), so that a
+// history-dependent failure can be written down as a concrete, exactly reproducible case.
 type history struct {
-	ring    [8][]byte
-	n       int
-	deepest []byte
-	deepLen int
+	docs  [][]byte
+	bytes int
 }
 
 func (h *history) add(in []byte) {
-	h.ring[h.n%len(h.ring)] = append(h.ring[h.n%len(h.ring)][:0], in...)
-	h.n++
-	if len(in) > h.deepLen && len(in) >= 64 && (in[0] == '[' || in[0] == '{') {
-		h.deepest, h.deepLen = append([]byte(nil), in...), len(in)
-	}
+	h.docs = append(h.docs, append([]byte(nil), in...))
+	h.bytes += len(in)
 }
 
+func (h *history) full() bool { return len(h.docs) >= 256 || h.bytes >= 2<<20 }
+
+func (h *history) reset() { h.docs, h.bytes = h.docs[:0], 0 }
+
+// freshHistory marks a case whose Steps are to be replayed on a brand-new Buffer (not on
+// the deterministically primed one).
+const freshHistory = "fresh-buffer-history"
+
 func (h *history) steps(prop string) []core.Case {
-	var out []core.Case
-	if h.deepest != nil {
-		out = append(out, core.Case{Prop: prop, Kind: "prior", In: h.deepest})
-	}
-	k := h.n
-	if k > len(h.ring) {
-		k = len(h.ring)
-	}
-	for i := h.n - k; i < h.n; i++ {
-		out = append(out, core.Case{Prop: prop, Kind: "prior", In: append([]byte(nil), h.ring[i%len(h.ring)]...)})
+	out := make([]core.Case, 0, len(h.docs))
+	for _, d := range h.docs {
+		out = append(out, core.Case{Prop: prop, Kind: "prior", In: d})
 	}
 	return out
+}
+
+// replayBuffer builds the used buffer of a replay: primed, or fresh for epoch histories.
+func replayBuffer(c *core.Case) *rjson.Buffer {
+	for _, s := range c.Strs {
+		if s == freshHistory {
+			return &rjson.Buffer{}
+		}
+	}
+	return primedBuffer()
 }
 
 // validOracle returns the reference verdict, whether the stdlib agrees, and whether the
@@ -93,7 +116,7 @@ func CheckC01(c *core.Case) error {
 	if got := rjson.Valid(in, &rjson.Buffer{}); got != want {
 		return fmt.Errorf("Valid(in, fresh buffer) = %v, reference and encoding/json say %v", got, want)
 	}
-	b := primedBuffer()
+	b := replayBuffer(c)
 	for _, s := range c.Steps {
 		rjson.Valid(s.In, b)
 	}
@@ -139,10 +162,14 @@ func (s *c01State) input(kind string, in []byte) error {
 	}
 	got := rjson.Valid(in, &s.used)
 	if got != want {
-		c := &core.Case{Prop: "C01", Kind: kind, In: append([]byte(nil), in...), Steps: s.hist.steps("C01")}
+		c := &core.Case{Prop: "C01", Kind: kind, In: append([]byte(nil), in...), Steps: s.hist.steps("C01"), Strs: []string{freshHistory}}
 		err := fmt.Errorf("Valid(in, long-lived buffer) = %v, reference and encoding/json say %v", got, want)
 		return &caseErr{c, err}
 	}
 	s.hist.add(in)
+	if s.hist.full() {
+		s.used = rjson.Buffer{}
+		s.hist.reset()
+	}
 	return nil
 }
